@@ -602,3 +602,130 @@ def seq_ser_check(fn):
     if len(ends) != 1:
         return False, "the sequence is not ended exactly once", None
     return True, "", {"collection": coll}
+
+
+# --------------------------------------------------------------------------- tables from path literals
+
+RANGE_CONTAINS = ("core::ops::range::Range::<Idx>::contains", "core::ops::range::RangeInclusive::<Idx>::contains",
+                  "core::ops::range::RangeFrom::<Idx>::contains", "core::ops::range::RangeTo::<Idx>::contains",
+                  "core::ops::range::RangeToInclusive::<Idx>::contains", "core::ops::range::RangeBounds::contains")
+
+
+def _const_int(A, n, facts):
+    n = A.subst(n)
+    v = H.lit(n)
+    if isinstance(v, int) and not isinstance(v, bool):
+        return v
+    if n.get("k") == "path":
+        r = n["res"]
+        if (r.get("rk") or "").split(" ")[0].split("{")[0] in ("AssocConst", "Const"):
+            c = facts.const_value(r["path"])
+            if isinstance(c, int):
+                return c
+    if n.get("k") == "cast":
+        return _const_int(A, n["e"], facts)
+    return None
+
+
+def _is_var(A, n, var_ids):
+    n = H.strip(A.subst(n))
+    if n.get("k") == "cast":
+        n = H.strip(A.subst(n["e"]))
+    return H.local_id(n) in var_ids
+
+
+def _range_bounds(A, r, facts):
+    """(lo, hi_exclusive) of a range expression with constant bounds; None ends are open"""
+    r = H.strip(A.subst(r))
+    if r.get("k") == "struct":
+        p = r["res"].get("path", "")
+        f = {x["name"]: _const_int(A, x["e"], facts) for x in r["fields"]}
+        if p == "core::ops::range::Range":
+            return f.get("start"), f.get("end")
+        if p == "core::ops::range::RangeFrom":
+            return f.get("start"), None
+        if p == "core::ops::range::RangeTo":
+            return None, f.get("end")
+        if p == "core::ops::range::RangeToInclusive":
+            return None, (f.get("end") + 1) if f.get("end") is not None else None
+    if r.get("k") == "call" and r.get("callee") == "core::ops::range::RangeInclusive::<Idx>::new":
+        a, b = _const_int(A, r["args"][0], facts), _const_int(A, r["args"][1], facts)
+        return a, (b + 1) if b is not None else None
+    raise Unreadable("range with non-constant bounds")
+
+
+def bool_set(A, e, var_ids, facts, domain):
+    """the subset of `domain` on which a boolean expression over one variable is true — a closed set
+    of idioms (comparisons with constants, range.contains, && || !), converted to a value set"""
+    e = H.strip_block(e)
+    k = e.get("k")
+    dom = set(domain)
+    if k == "unary" and e["op"] == "not":
+        return dom - bool_set(A, e["e"], var_ids, facts, domain)
+    if k == "binary" and e["op"] == "&&":
+        return bool_set(A, e["l"], var_ids, facts, domain) & bool_set(A, e["r"], var_ids, facts, domain)
+    if k == "binary" and e["op"] == "||":
+        return bool_set(A, e["l"], var_ids, facts, domain) | bool_set(A, e["r"], var_ids, facts, domain)
+    if k == "binary" and e["op"] in ("==", "!=", "<", "<=", ">", ">="):
+        l, r, op = e["l"], e["r"], e["op"]
+        if not _is_var(A, l, var_ids) and _is_var(A, r, var_ids):
+            l, r = r, l
+            op = {"==": "==", "!=": "!=", "<": ">", ">": "<", "<=": ">=", ">=": "<="}[op]
+        c = _const_int(A, r, facts)
+        if _is_var(A, l, var_ids) and c is not None:
+            f = {"==": lambda x: x == c, "!=": lambda x: x != c, "<": lambda x: x < c, "<=": lambda x: x <= c, ">": lambda x: x > c, ">=": lambda x: x >= c}[op]
+            return {x for x in dom if f(x)}
+        raise Unreadable("comparison that is not <variable> <op> <constant>")
+    if k in ("mcall", "call") and e.get("callee") in RANGE_CONTAINS:
+        args = H.call_args(e)
+        if len(args) == 2 and _is_var(A, args[1], var_ids):
+            lo, hi = _range_bounds(A, args[0], facts)
+            return {x for x in dom if (lo is None or x >= lo) and (hi is None or x < hi)}
+        raise Unreadable("range.contains on something other than the variable")
+    v = H.lit(e)
+    if isinstance(v, bool):
+        return dom if v else set()
+    raise Unreadable("condition of unsupported shape: " + str(k))
+
+
+def site_table(fn, facts, domain=range(256)):
+    """decision table of a function of one integer argument from its path literals: rows
+    [{vals, kind ('ok'|'err'|'val'), res (leaf node), site}] — value sets are disjoint by construction.
+    Accepts match tables, if/else chains, early returns, range.contains, comparisons."""
+    from .pathcond import Analysis, OK, ERR
+    A = Analysis(fn)
+    pids = set(A.param_ids)
+    if len(pids) != 1:
+        raise Unreadable("not a function of one argument")
+    rows = []
+    for s in A.sites:
+        vals = set(domain)
+        var_ids = set(pids)
+        for c in s.conds:
+            if c.kind == "match":
+                if not _is_var(A, c.scrut, var_ids):
+                    raise Unreadable("match on something other than the argument")
+                if c.guard is not None:
+                    raise Unreadable("match guard")
+                pv, ca = pat_values(c.pat, facts)
+                cur = set(domain) if ca else set(pv)
+                for q in c.prior:
+                    qv, qca = pat_values(q, facts)
+                    cur -= set(domain) if qca else set(qv)
+                vals &= cur
+                for _, bid in H.pat_bindings(c.pat):
+                    var_ids.add(bid)   # `code @ A..=B` binds the argument itself
+            elif c.kind == "expr":
+                t = bool_set(A, c.e, var_ids, facts, domain)
+                vals &= t if c.pol else (set(domain) - t)
+            else:
+                raise Unreadable("unsupported path literal kind " + c.kind)
+        kind = "ok" if s.wrappers[:1] == [OK] else "err" if s.wrappers[:1] == [ERR] else "val"
+        rows.append({"vals": vals, "catchall": False, "kind": kind, "res": s.node, "site": s, "var_ids": var_ids, "wrappers": s.wrappers})
+    # `?` exits: error rows for the values that reach them are the callee's business; record them
+    cover = set()
+    for r in rows:
+        if cover & r["vals"]:
+            raise Unreadable("overlapping rows")
+        cover |= r["vals"]
+    return A, rows
